@@ -428,8 +428,19 @@ func nearVersions(c *engine.Ctx) {
 	}
 }
 
+// UseResult edits a result the way its owner may: a node, an edge and a root element are added.
+func UseResult(x *sbom.NodeList) {
+	if x == nil {
+		return
+	}
+	x.Nodes = append(x.Nodes, &sbom.Node{Id: "used-by-owner"})
+	x.Edges = append(x.Edges, &sbom.Edge{From: "used-by-owner", Type: sbom.Edge_contains, To: []string{"used-by-owner"}})
+	x.RootElements = append(x.RootElements, "used-by-owner")
+}
+
 func pairCase(t *engine.T, A, B, empty gen.ListSpec) *engine.Violation {
-	a, b := A.Build(), B.Build()
+	// operands with spare capacity in every slice (lists grown by appends, or decoded)
+	a, b := gen.SpareList(A.Build()), gen.SpareList(B.Build())
 	ma, mb := gen.ModelOf(a), gen.ModelOf(b)
 	want := UnionModel(ma, mb)
 	u := a.Union(b)
@@ -445,6 +456,22 @@ func pairCase(t *engine.T, A, B, empty gen.ListSpec) *engine.Violation {
 	for id, k := range mu.Nodes {
 		if k != 1 {
 			return engine.Violate("union-model", "dup-node", "node %s appears %d times in the union", id, k)
+		}
+	}
+	// the result is held while the receiver is united with something else (a list that brings a node, an edge and a
+	// root of its own), then used by its owner; neither changes what A∪B is, nor what the next A∪B returns
+	{
+		other := &sbom.NodeList{Nodes: []*sbom.Node{{Id: "held-x"}}, Edges: []*sbom.Edge{{From: "held-x", Type: sbom.Edge_contains, To: []string{"held-x"}}}, RootElements: []string{"held-x"}}
+		_ = a.Union(other)
+		t.Transitions(1)
+		if k := gen.ModelOf(u).SetKey(); k != want.SetKey() {
+			return engine.Violate("union-model", "held-result", "A∪B, held while A∪X was computed, became %s\nmodel  = %s", k, want.SetKey())
+		}
+		UseResult(u)
+		again := a.Union(b)
+		t.Transitions(1)
+		if k := gen.ModelOf(again).SetKey(); k != want.SetKey() {
+			return engine.Violate("union-model", "after-result-used", "A∪B computed again after the first result was edited by its owner = %s\nmodel  = %s", k, want.SetKey())
 		}
 	}
 	// commutative
